@@ -57,9 +57,6 @@ def run(pid, tier, seed, procs=None):
         if kind == 'key':
             spec['max_expired'] = cfg['max_expired']
         step_specs.append(spec)
-        if tier == 'quick' and pid in ('C01', 'C20') and kind == 'key' and op in ('first_less', 'first_less_or_equal', 'first_less_or_equal_by'):
-            # two consecutive lazy removals on one descent (an expired child whose replacement is expired too): exactly 2 expired entries
-            step_specs.append(dict(spec, max_expired=2, min_expired=2))
         if op == 'insert' and pid in ('C02', 'C04', 'C05', 'C11', 'C10', 'C17', 'C01'):
             g = dict(spec, growth=True, N=min(N, 4))      # arena full: the insert has to grow the pool
             step_specs.append(g)
